@@ -65,7 +65,7 @@ var propertyCanaries = map[string][]string{
 	"C07": {"MAT.access", "ARGS.callee", "ARGS.ldcols", "ARGS.workquery", "ARGS.condlen", "ARGS.arms", "ARGS.strict", "ARGS.fullrow", "WORKSIZE.querylen", "ARGS.order", "ARGS.lencheck", "ARGS.query", "MAT.order", "ASM.window", "ASM.tail", "STRIDE.len"},
 	"C08": {"STRIDE.fullrange", "BETA.scaleguard", "CONSTFOLD.underflow", "ASM.lost", "PARAMUSE.read", "ASM.window", "ASM.tail", "ASM.units", "STRIDE.extent", "SIB.guards"},
 	"C09": {"GOPROTO.latch", "GOPROTO.lockexit", "RAW.stride", "GOPROTO.accumzero", "GOPROTO.semcap", "GOPROTO.scratch", "GLOBAL.write", "GOPROTO.capture", "GOPROTO.lockpair", "GOPROTO.sibling", "POOL.uaf"},
-	"C12": {"GRAPHINV.rangefirst", "GRAPHINV.diag", "GRAPHINV.nilentry", "GRAPHINV.mapinit", "GRAPHINV.relit", "GRAPHINV.together", "GRAPHINV.expose", "SWAP.cond", "GRAPHINV.prune", "TWIN.sibguard", "GRAPHINV.panicorder", "GRAPHINV.absent", "GRAPHINV.iterreset", "GRAPHINV.converse", "GRAPHINV.uid", "GRAPHINV.iter", "TWIN.sibstate"},
+	"C12": {"ITER.remaining", "GRAPHINV.rangefirst", "GRAPHINV.diag", "GRAPHINV.nilentry", "GRAPHINV.mapinit", "GRAPHINV.relit", "GRAPHINV.together", "GRAPHINV.expose", "SWAP.cond", "GRAPHINV.prune", "TWIN.sibguard", "GRAPHINV.panicorder", "GRAPHINV.absent", "GRAPHINV.iterreset", "GRAPHINV.converse", "GRAPHINV.uid", "GRAPHINV.iter", "TWIN.sibstate"},
 	"C16": {"NILGUARD.sibling", "ERR.overwrite", "ERR.swallow", "RESET.revive", "DECODE.order", "DECODE.errdrop", "DECODE.mul", "DECODE.selfcmp", "DECODE.clone", "DECODE.fields"},
 	"C17": {"GLOBAL.state", "CMPLX.parts", "RESET.noleak", "GLOBAL.write", "RESET.fields", "WINDOW.pointwise"},
 	"C18": {"ERR.overwrite", "ERR.swallow", "SETTINGS.readonly", "RAW.stride", "SWAP.cond", "GOPROTO.accumzero", "CONST.stencil", "GOPROTO.sibling"},
@@ -115,6 +115,7 @@ func init() {
 		{"GRAPHINV.nilentry", "graph/multi/directed.go", "\tif g.lineIDs[fid][tid] != nil {\n\t\tg.lineIDs[fid][tid].Release(id)\n\t}", "\tg.lineIDs[fid][tid].Release(id)", func() *core.Result { return graphinv.RunNilEntry(def, "./graph/multi") }},
 		{"GRAPHINV.diag", "graph/simple/dense_undirected_matrix.go", "\tif fid == tid {\n\t\tpanic(\"simple: set illegal edge\")\n\t}", "", func() *core.Result { return graphinv.RunDiag(def) }},
 		{"GRAPHINV.rangefirst", "graph/simple/dense_directed_matrix.go", "\tg.mat.Set(int(fid), int(tid), weight)\n\tif g.nodes != nil {\n\t\tg.nodes[fid] = from\n\t\tg.nodes[tid] = to\n\t}\n", "\tif g.nodes != nil {\n\t\tg.nodes[fid] = from\n\t\tg.nodes[tid] = to\n\t}\n\tg.mat.Set(int(fid), int(tid), weight)\n", func() *core.Result { return graphinv.RunRangeFirst(def) }},
+		{"ITER.remaining", "graph/iterator/nodes.go", "\treturn len(n.nodes[n.idx+1:])", "\treturn len(n.nodes[n.idx:])", func() *core.Result { return graphinv.RunIterFamily(def) }},
 		{"ARGS.workquery", "lapack/gonum/dgeqrf.go", "case len(work) < max(1, lwork):", "case len(work) < lwork:", func() *core.Result { return flagx.RunWorkQuery(def, core.Pkgs("./lapack/gonum")) }},
 		{"ARGS.callee", "lapack/gonum/dsytrd.go", "case len(d) < n:", "case len(d) < n-1:", func() *core.Result { return worksize.RunCallee(def, core.Pkgs("./lapack/gonum")) }},
 		{"GRAPHINV.together", "graph/simple/weighted_undirected.go", "\tif fm, ok := g.edges[fid]; ok {\n\t\tfm[tid] = e\n\t} else {", "\tif fm, ok := g.edges[fid]; ok {\n\t\t_, exists := fm[tid]\n\t\tfm[tid] = e\n\t\tif exists {\n\t\t\treturn\n\t\t}\n\t} else {", func() *core.Result { return graphinv.Run(def) }},
